@@ -804,3 +804,11 @@ func (t *Term) str(d int) string {
 	sb.WriteString(")")
 	return sb.String()
 }
+
+// Const builds a constant of the given sort (Bool when w == 0).
+func (tb *TermBank) Const(v *big.Int, w int) *Term {
+	if w == SortBool {
+		return tb.Bool(v.Sign() != 0)
+	}
+	return tb.BV(v, w)
+}
